@@ -14,6 +14,21 @@
 // {short channel id, blinded node id}; a fourth always-accepting link to ANOTHER
 // peer is a decoy. Local sends: every link state x every link.
 //
+// Addressing kinds (axis audit): the same enumeration is repeated in worlds whose links
+// to the next peer are option-scid-alias channels (public / unadvertised) and zero-conf
+// channels (confirmed / unconfirmed), with the sender (or the local router) naming the
+// channel by its ALIAS or by its CONFIRMED scid. The switch then finds the link through
+// its alias maps (getLinkByMapping / getLocalLink), rewrites the packet's outgoing scid
+// and must still hand back the REQUESTED link's verdict. Only documented special case:
+// an unadvertised channel named by its confirmed scid is not found (UnknownNextPeer).
+//
+// Interceptor (axis audit): mode "intercept" sends the Add through a real, started
+// InterceptableSwitch with a registered interceptor, which holds it and then resumes it
+// unchanged or with a modified incoming amount / outgoing amount / both (ResumeModified).
+// The HTLC is then judged with the amounts the interceptor substituted: the links must be
+// consulted with exactly those, and (all forwarding modes) the update_add_htlc handed to
+// the outgoing link must carry the amount and expiry the check was consulted with.
+//
 // Oracle (scenario independent):
 //   - exactly one outcome per Add: delivered to exactly one link, or failed back once;
 //   - delivered => the link belongs to the addressed peer, is eligible, WAS consulted
@@ -39,10 +54,12 @@ import (
 	"testing"
 	"testing/synctest"
 
+	"github.com/lightningnetwork/lnd/chainntnfs"
 	"github.com/lightningnetwork/lnd/fn/v2"
 	"github.com/lightningnetwork/lnd/graph/db/models"
 	"github.com/lightningnetwork/lnd/htlcswitch/hop"
 	"github.com/lightningnetwork/lnd/lnpeer"
+	"github.com/lightningnetwork/lnd/lntest/mock"
 	"github.com/lightningnetwork/lnd/lnwire"
 	"github.com/lightningnetwork/lnd/verifmc/evid"
 )
@@ -104,23 +121,63 @@ type c09Scenario struct {
 	Mode   string   `json:"mode"` // scid | node | local
 	Req    int      `json:"requested_link"`
 	States []string `json:"link_states"` // per link of the next peer: I | A | R | T
+	// Kinds: per link of the next peer P plain | F option-scid-alias, public | U
+	// option-scid-alias, unadvertised | Z zero-conf, confirmed | z zero-conf,
+	// unconfirmed ("" = all plain). Via: how the requested link is named: "" its
+	// own scid | "alias" | "confirmed".
+	Kinds string `json:"link_kinds,omitempty"`
+	Via   string `json:"via,omitempty"`
+	// Res (mode "intercept"): what the interceptor does with the held Add:
+	// resume | in | out | both | out-above-in
+	Res string `json:"interceptor_resolution,omitempty"`
 }
 
 func (sc c09Scenario) String() string {
-	return fmt.Sprintf("%s req=%d states=%s", sc.Mode, sc.Req, strings.Join(sc.States, ""))
+	s := fmt.Sprintf("%s req=%d states=%s", sc.Mode, sc.Req, strings.Join(sc.States, ""))
+	if sc.Kinds != "" {
+		s += fmt.Sprintf(" kinds=%s via=%s", sc.Kinds, sc.Via)
+	}
+	if sc.Res != "" {
+		s += " interceptor=" + sc.Res
+	}
+	return s
+}
+
+func (sc c09Scenario) reqKind() byte {
+	if sc.Kinds == "" {
+		return 'P'
+	}
+	return sc.Kinds[sc.Req]
+}
+
+// c09Vias: the ways a link of a kind can be named.
+func c09Vias(kind byte) []string {
+	switch kind {
+	case 'F', 'U', 'Z':
+		return []string{"alias", "confirmed"}
+	case 'z':
+		return []string{"alias"}
+	}
+	return []string{""}
 }
 
 type c09World struct {
-	t     *testing.T
-	s     *Switch
-	alice *c09Link
-	bobs  []*c09Link
-	carol *c09Link
-	all   []*c09Link
-	bob   [33]byte
-	nextH uint64
-	upd   lnwire.ChannelUpdate1
-	log   func(string, ...any)
+	t      *testing.T
+	s      *Switch
+	alice  *c09Link
+	bobs   []*c09Link
+	carol  *c09Link
+	all    []*c09Link
+	bob    [33]byte
+	is     *InterceptableSwitch
+	heldMu sync.Mutex
+	held   []InterceptedPacket
+	kinds  string
+	alias  []lnwire.ShortChannelID // per bob link: its alias (zero value: none)
+	conf   []lnwire.ShortChannelID // per bob link: its confirmed scid (zero value: none)
+	nextH  uint64
+	upd    lnwire.ChannelUpdate1
+	log    func(string, ...any)
 }
 
 // the packet's fields: all distinct and non-zero
@@ -131,8 +188,11 @@ const (
 	c09OrigScid     = 0x0f0f0f000001
 )
 
-func newC09World(t *testing.T, nBob int) *c09World {
-	w := &c09World{t: t, log: func(string, ...any) {}}
+func newC09World(t *testing.T, nBob int, kinds string) *c09World {
+	w := &c09World{t: t, kinds: kinds, log: func(string, ...any) {}}
+	if kinds != "" && len(kinds) != nBob {
+		t.Fatalf("link kinds %q for %d links", kinds, nBob)
+	}
 	mk := func(name string) *c09Peer {
 		p := &c09Peer{}
 		h := sha256.Sum256([]byte(name))
@@ -149,26 +209,85 @@ func newC09World(t *testing.T, nBob int) *c09World {
 		t.Fatalf("switch start: %v", err)
 	}
 	w.s = s
+	// the interceptable switch in front of it (mode "intercept")
+	notifier := &mock.ChainNotifier{EpochChan: make(chan *chainntnfs.BlockEpoch, 1)}
+	notifier.EpochChan <- &chainntnfs.BlockEpoch{Height: testStartingHeight}
+	is, err := NewInterceptableSwitch(&InterceptableSwitchConfig{Switch: s, CltvRejectDelta: 10, CltvInterceptDelta: 13, Notifier: notifier})
+	if err != nil {
+		t.Fatalf("interceptable switch: %v", err)
+	}
+	if err := is.Start(); err != nil {
+		t.Fatalf("interceptable switch start: %v", err)
+	}
+	is.SetInterceptor(func(p InterceptedPacket) error {
+		w.heldMu.Lock()
+		w.held = append(w.held, p)
+		w.heldMu.Unlock()
+		return nil
+	})
+	w.is = is
 	n := byte(0)
-	link := func(name string, p *c09Peer) *c09Link {
+	link := func(name string, p *c09Peer, kind byte) *c09Link {
 		n++
 		var cid lnwire.ChannelID
 		cid[0] = n
-		scid := lnwire.NewShortChanIDFromInt(uint64(n) * 1_000_003)
-		l := &c09Link{name: name, elig: true,
-			mockChannelLink: newMockChannelLink(s, cid, scid, emptyScid, p, true, false, false, false)}
+		conf := lnwire.NewShortChanIDFromInt(uint64(n) * 1_000_003)
+		// inside the alias range of the test switch (mock.go isAlias)
+		alias := lnwire.ShortChannelID{BlockHeight: 16_000_000 + uint32(n), TxIndex: uint32(n), TxPosition: 1}
+		var ml *mockChannelLink
+		var la, lc lnwire.ShortChannelID
+		switch kind {
+		case 'P':
+			ml = newMockChannelLink(s, cid, conf, emptyScid, p, true, false, false, false)
+		case 'F', 'U':
+			ml = newMockChannelLink(s, cid, conf, emptyScid, p, true, kind == 'U', false, true)
+			ml.addAlias(alias)
+			la, lc = alias, conf
+		case 'Z': // zero-conf, confirmed: the link's scid is its alias, the real scid is known
+			ml = newMockChannelLink(s, cid, alias, conf, p, true, false, true, true)
+			la, lc = alias, conf
+		case 'z': // zero-conf, not yet confirmed
+			ml = newMockChannelLink(s, cid, alias, emptyScid, p, true, false, true, true)
+			la = alias
+		default:
+			t.Fatalf("unknown link kind %q", kind)
+		}
+		l := &c09Link{name: name, elig: true, mockChannelLink: ml}
 		if err := s.AddLink(l); err != nil {
 			t.Fatalf("AddLink: %v", err)
 		}
 		w.all = append(w.all, l)
+		if p == bp {
+			w.alias, w.conf = append(w.alias, la), append(w.conf, lc)
+		}
 		return l
 	}
-	w.alice = link("alice", ap)
+	w.alice = link("alice", ap, 'P')
 	for i := 0; i < nBob; i++ {
-		w.bobs = append(w.bobs, link(fmt.Sprintf("bob%d", i), bp))
+		k := byte('P')
+		if kinds != "" {
+			k = kinds[i]
+		}
+		w.bobs = append(w.bobs, link(fmt.Sprintf("bob%d", i), bp, k))
 	}
-	w.carol = link("carol", cp)
+	w.carol = link("carol", cp, 'P')
 	return w
+}
+
+func (w *c09World) stop() {
+	_ = w.is.Stop()
+	_ = w.s.Stop()
+}
+
+// named returns the scid under which the scenario names the requested link.
+func (w *c09World) named(sc c09Scenario) lnwire.ShortChannelID {
+	switch sc.Via {
+	case "alias":
+		return w.alias[sc.Req]
+	case "confirmed":
+		return w.conf[sc.Req]
+	}
+	return w.bobs[sc.Req].ShortChanID()
 }
 
 // ownFailure: a distinct BOLT-4 failure per link index, so that the oracle can
@@ -248,6 +367,14 @@ func (w *c09World) run(sc c09Scenario, report func(sig, what string)) (outcome s
 			outcome = "panic"
 		}
 	}()
+	if sc.Kinds != "" {
+		inner := report
+		addr := "|link-kinds=" + sc.Kinds
+		if sc.Mode != "node" {
+			addr += "|named=" + string(sc.reqKind()) + "/" + sc.Via
+		}
+		report = func(sig, what string) { inner(sig+addr, what) }
+	}
 	for i, l := range w.bobs {
 		w.setState(l, i, sc.States[i])
 	}
@@ -261,9 +388,16 @@ func (w *c09World) run(sc c09Scenario, report func(sig, what string)) (outcome s
 	// switch itself records the requested scid (getLinkByMapping), for a node-id
 	// hop it passes on what the packet carries
 	want := c09Args{c09In, c09Out, c09InT, c09OutT, c09IB, c09IR, testStartingHeight, c09OrigScid}
-	if sc.Mode == "scid" {
-		want.Scid = w.bobs[sc.Req].ShortChanID().ToUint64()
+	named := w.named(sc)
+	if sc.Mode != "node" && named == emptyScid {
+		panic(fmt.Sprintf("%s: link %d has no %s scid", sc, sc.Req, sc.Via))
 	}
+	if sc.Mode == "scid" || sc.Mode == "intercept" {
+		want.Scid = named.ToUint64()
+	}
+	// documented: an unadvertised option-scid-alias channel is not found under its
+	// confirmed scid when a remote sender names it
+	hidden := sc.Mode == "scid" && sc.reqKind() == 'U' && sc.Via == "confirmed"
 
 	argCheck := func() {
 		for _, l := range w.all {
@@ -292,8 +426,8 @@ func (w *c09World) run(sc c09Scenario, report func(sig, what string)) (outcome s
 
 	if sc.Mode == "local" {
 		l := w.bobs[sc.Req]
-		w.log("SendHTLC over %s (state %s)", l.name, sc.States[sc.Req])
-		err := w.s.SendHTLC(l.ShortChanID(), id, htlc)
+		w.log("SendHTLC over %s (state %s) named %v", l.name, sc.States[sc.Req], named)
+		err := w.s.SendHTLC(named, id, htlc)
 		arr := w.drain()
 		defer cleanup(arr)
 		argCheck()
@@ -347,12 +481,57 @@ func (w *c09World) run(sc c09Scenario, report func(sig, what string)) (outcome s
 		pkt.outgoingChanID = hop.Exit
 		pkt.outgoingHop = fn.NewRight[lnwire.ShortChannelID, [33]byte](w.bob)
 	} else {
-		pkt.outgoingChanID = w.bobs[sc.Req].ShortChanID()
+		pkt.outgoingChanID = named
 		pkt.outgoingHop = fn.NewLeft[lnwire.ShortChannelID, [33]byte](pkt.outgoingChanID)
 	}
-	w.log("ForwardPackets: add %d from alice, next hop %s", id, sc.Mode)
-	if err := w.s.ForwardPackets(nil, pkt); err != nil {
-		report("hard:switch:forward-packets-error", fmt.Sprintf("%s: %v", sc, err))
+	if sc.Mode == "intercept" {
+		w.heldMu.Lock()
+		w.held = nil
+		w.heldMu.Unlock()
+		w.log("InterceptableSwitch.ForwardPackets: add %d from alice", id)
+		if err := w.is.ForwardPackets(nil, false, pkt); err != nil {
+			report("hard:switch:forward-packets-error", fmt.Sprintf("%s: %v", sc, err))
+		}
+		synctest.Wait()
+		w.heldMu.Lock()
+		held := append([]InterceptedPacket(nil), w.held...)
+		w.heldMu.Unlock()
+		if len(held) != 1 || held[0].IncomingCircuit != pkt.inKey() {
+			report("hard:switch:interceptor-not-offered-once", fmt.Sprintf("%s: the interceptor was offered %d packets", sc, len(held)))
+			return "not-intercepted"
+		}
+		if h := held[0]; h.IncomingAmount != c09In || h.OutgoingAmount != c09Out || h.IncomingExpiry != c09InT || h.OutgoingExpiry != c09OutT {
+			report("switch:interceptor-shown-other-values", fmt.Sprintf("%s: the interceptor was shown in=%v out=%v expiries %d/%d, the packet says %d/%d %d/%d",
+				sc, h.IncomingAmount, h.OutgoingAmount, h.IncomingExpiry, h.OutgoingExpiry, c09In, c09Out, c09InT, c09OutT))
+		}
+		res := &FwdResolution{Key: held[0].IncomingCircuit, Action: FwdActionResumeModified}
+		switch sc.Res {
+		case "resume":
+			res.Action = FwdActionResume
+		case "in":
+			want.In = c09In + 111
+			res.InAmountMsat = fn.Some(lnwire.MilliSatoshi(want.In))
+		case "out":
+			want.Out = c09Out - 222
+			res.OutAmountMsat = fn.Some(lnwire.MilliSatoshi(want.Out))
+		case "both":
+			want.In, want.Out = c09In+111, c09Out-222
+			res.InAmountMsat, res.OutAmountMsat = fn.Some(lnwire.MilliSatoshi(want.In)), fn.Some(lnwire.MilliSatoshi(want.Out))
+		case "out-above-in": // the links' checks have to see it
+			want.Out = c09In + 5
+			res.OutAmountMsat = fn.Some(lnwire.MilliSatoshi(want.Out))
+		default:
+			panic("unknown interceptor resolution " + sc.Res)
+		}
+		w.log("interceptor resolves with %s: the HTLC is now in=%d out=%d", sc.Res, want.In, want.Out)
+		if err := w.is.Resolve(res); err != nil {
+			report("hard:switch:interceptor-resolve-error", fmt.Sprintf("%s: %v", sc, err))
+		}
+	} else {
+		w.log("ForwardPackets: add %d from alice, next hop %s", id, sc.Mode)
+		if err := w.s.ForwardPackets(nil, pkt); err != nil {
+			report("hard:switch:forward-packets-error", fmt.Sprintf("%s: %v", sc, err))
+		}
 	}
 	arr := w.drain()
 	defer cleanup(arr)
@@ -391,6 +570,12 @@ func (w *c09World) run(sc c09Scenario, report func(sig, what string)) (outcome s
 		if consulted == 0 {
 			report("accept-mismatch:switch:delivered-without-check", fmt.Sprintf("%s: the Add went to %s without its CheckHtlcForward being consulted", sc, a.link.name))
 		}
+		// what goes out on the wire is what the check was consulted with
+		if add := a.pkt.htlc.(*lnwire.UpdateAddHTLC); uint64(add.Amount) != want.Out || add.Expiry != want.OutT || uint64(a.pkt.amount) != want.Out {
+			report("accept-mismatch:switch:delivered-htlc-differs-from-checked",
+				fmt.Sprintf("%s: the update_add_htlc handed to %s carries %d msat expiring %d (packet amount %d msat), the links were to be consulted with %d msat expiring %d",
+					sc, a.link.name, uint64(add.Amount), add.Expiry, uint64(a.pkt.amount), want.Out, want.OutT))
+		}
 		return
 	}
 	// failed back
@@ -402,8 +587,11 @@ func (w *c09World) run(sc c09Scenario, report func(sig, what string)) (outcome s
 	code := c09Code(a.pkt.linkFailure)
 	outcome = "failed:" + code
 	w.log("failed back with %s", code)
-	if sc.Mode == "scid" {
+	if sc.Mode == "scid" || sc.Mode == "intercept" {
 		st := sc.States[sc.Req]
+		if hidden && code == "UnknownNextPeer" {
+			return
+		}
 		if st == "A" {
 			report("reject-mismatch:switch:requested-link-accepts:code="+code,
 				fmt.Sprintf("%s: failed with %s although the requested link is eligible and its check passed", sc, code))
@@ -436,7 +624,7 @@ func (w *c09World) run(sc c09Scenario, report func(sig, what string)) (outcome s
 	return
 }
 
-func c09Scenarios(nBob int, alphabet []string) []c09Scenario {
+func c09Scenarios(nBob int, alphabet []string, kinds string) []c09Scenario {
 	var states [][]string
 	var rec func(cur []string)
 	rec = func(cur []string) {
@@ -452,10 +640,23 @@ func c09Scenarios(nBob int, alphabet []string) []c09Scenario {
 	var out []c09Scenario
 	for _, st := range states {
 		for r := 0; r < nBob; r++ {
-			out = append(out, c09Scenario{"switch", "scid", r, st})
-			out = append(out, c09Scenario{"switch", "local", r, st})
+			k := byte('P')
+			if kinds != "" {
+				k = kinds[r]
+			}
+			for _, via := range c09Vias(k) {
+				out = append(out, c09Scenario{Kind: "switch", Mode: "scid", Req: r, States: st, Kinds: kinds, Via: via})
+				out = append(out, c09Scenario{Kind: "switch", Mode: "local", Req: r, States: st, Kinds: kinds, Via: via})
+			}
 		}
-		out = append(out, c09Scenario{"switch", "node", 0, st})
+		out = append(out, c09Scenario{Kind: "switch", Mode: "node", States: st, Kinds: kinds})
+		if kinds == "" {
+			for r := 0; r < nBob; r++ {
+				for _, res := range []string{"resume", "in", "out", "both", "out-above-in"} {
+					out = append(out, c09Scenario{Kind: "switch", Mode: "intercept", Req: r, States: st, Res: res})
+				}
+			}
+		}
 	}
 	return out
 }
@@ -477,8 +678,8 @@ func TestC09Switch(t *testing.T) {
 			os.Exit(run.Finish(map[string]any{"evaluations": 1, "distinct_nontrivial": 2, "rule": "replay (other target)", "samples": []any{rp}}))
 		}
 		synctest.Test(t, func(t *testing.T) {
-			w := newC09World(t, len(f.Replay.States))
-			defer w.s.Stop()
+			w := newC09World(t, len(f.Replay.States), f.Replay.Kinds)
+			defer w.stop()
 			w.log = func(fm string, a ...any) { fmt.Printf("INFO "+fm+"\n", a...) }
 			fmt.Printf("INFO replaying %s (recorded signature %s): %s\n", rp, f.Signature, f.Replay)
 			for i := 0; i < 3; i++ {
@@ -502,54 +703,74 @@ func TestC09Switch(t *testing.T) {
 	if run.Thorough() {
 		nBob = 4
 	}
-	scs := c09Scenarios(nBob, []string{"I", "A", "R", "T"})
+	// worlds: all links plain (the original enumeration), then the addressing kinds
+	worldKinds := []string{"", "FZU"}
+	if run.Thorough() {
+		worldKinds = []string{"", "FZUz", "UzPF", "ZZFF"}
+	}
+	var scs []c09Scenario
+	byKinds := map[string]int{}
+	byRes := map[string]int{}
 	outcomes := map[string]int{}
 	classes := map[string]bool{}
 	nontrivial := map[string]bool{}
 	samples := evid.NewSamples(6)
 	nondet := 0
-	synctest.Test(t, func(t *testing.T) {
-		w := newC09World(t, nBob)
-		defer w.s.Stop()
-		for _, sc := range scs {
-			sc := sc
-			type rep struct{ sig, what string }
-			var reps []rep
-			o := w.run(sc, func(sig, what string) { reps = append(reps, rep{sig, what}) })
-			outcomes[sc.Mode+":"+o]++
-			// class: addressing, state of the requested link, multiset of states, outcome
-			ms := append([]string(nil), sc.States...)
-			sort.Strings(ms)
-			req := sc.States[sc.Req]
-			if sc.Mode == "node" {
-				req = "-"
-			}
-			cl := sc.Mode + "/" + req + "/" + strings.Join(ms, "") + "/" + o
-			if !classes[cl] {
-				classes[cl] = true
-				// non-trivial: the links of the peer disagree with each other
-				if ms[0] != ms[len(ms)-1] {
-					nontrivial[cl] = true
-					samples.Add(map[string]any{"scenario": sc, "outcome": o})
+	for _, kinds := range worldKinds {
+		wscs := c09Scenarios(nBob, []string{"I", "A", "R", "T"}, kinds)
+		scs = append(scs, wscs...)
+		synctest.Test(t, func(t *testing.T) {
+			w := newC09World(t, nBob, kinds)
+			defer w.stop()
+			for _, sc := range wscs {
+				sc := sc
+				if kinds != "" && sc.Mode != "node" {
+					byKinds[sc.Mode+":"+string(sc.reqKind())+"/"+sc.Via]++
+				}
+				type rep struct{ sig, what string }
+				var reps []rep
+				o := w.run(sc, func(sig, what string) { reps = append(reps, rep{sig, what}) })
+				outcomes[sc.Mode+":"+o]++
+				if sc.Res != "" {
+					byRes[sc.Res+":"+o]++
+				}
+				// class: addressing, state of the requested link, multiset of states, outcome
+				ms := append([]string(nil), sc.States...)
+				sort.Strings(ms)
+				req := sc.States[sc.Req]
+				if sc.Mode == "node" {
+					req = "-"
+				}
+				cl := sc.Mode + sc.Res + "/" + req + "/" + strings.Join(ms, "") + "/" + o
+				if kinds != "" && sc.Mode != "node" {
+					cl += "/" + string(sc.reqKind()) + "/" + sc.Via
+				}
+				if !classes[cl] {
+					classes[cl] = true
+					// non-trivial: the links of the peer disagree with each other
+					if ms[0] != ms[len(ms)-1] {
+						nontrivial[cl] = true
+						samples.Add(map[string]any{"scenario": sc, "outcome": o})
+					}
+				}
+				if len(reps) == 0 {
+					continue
+				}
+				// determinism gate: the same scenario again must be judged the same way
+				// (which of several accepting links is picked is the switch's random
+				// choice and not part of the judgement)
+				var again []rep
+				w.run(sc, func(sig, what string) { again = append(again, rep{sig, what}) })
+				if len(again) == 0 {
+					nondet++
+					continue
+				}
+				for _, r := range reps {
+					run.Violation(r.sig, r.what, sc)
 				}
 			}
-			if len(reps) == 0 {
-				continue
-			}
-			// determinism gate: the same scenario again must be judged the same way
-			// (which of several accepting links is picked is the switch's random
-			// choice and not part of the judgement)
-			var again []rep
-			w.run(sc, func(sig, what string) { again = append(again, rep{sig, what}) })
-			if len(again) == 0 {
-				nondet++
-				continue
-			}
-			for _, r := range reps {
-				run.Violation(r.sig, r.what, sc)
-			}
-		}
-	})
+		})
+	}
 	cov := map[string]any{
 		"evaluations":         len(scs),
 		"distinct_nontrivial": len(nontrivial),
@@ -559,6 +780,9 @@ func TestC09Switch(t *testing.T) {
 		"switch_scenarios":       len(scs),
 		"switch_outcome_classes": outcomes,
 		"switch_classes_total":   len(classes),
+		"switch_scenarios_by_requested_link_kind_and_naming": byKinds,
+		"switch_link_kind_worlds":                            worldKinds,
+		"switch_interceptor_resolution_outcomes":             byRes,
 	}
 	if nondet > 0 {
 		cov["exhaustive"] = false
